@@ -194,7 +194,9 @@ def fam_cont(rnd, n):
         if rnd.random() < 0.2:
             out[rnd.choice(seq_actions(sh))] = ["perm"]
         mode = "quiet" if i % 2 == 0 else "free"
-        res.append(scn(sh, mode, out, lat=lat, tag="cont", contdelay=rnd.choice([50, 150, 400]), latmax=200, quiet=rnd.choice([800, 1500])))
+        # every fifth plan leaves Checks.Delay unset: the continuous checks then run back to back
+        cd = -1 if i % 5 == 4 and mode == "free" else rnd.choice([50, 150, 400])
+        res.append(scn(sh, mode, out, lat=lat, tag="cont" if cd > 0 else "cont-nodelay", contdelay=cd, latmax=200, quiet=rnd.choice([800, 1500])))
     return res
 
 
@@ -258,6 +260,11 @@ def fam_cont_keeps(rnd, n):
         bg = {"cont": 1} if lvl == "b1" else {}
         sh = shape([blk([1, 1], conc=rnd.choice([1, 2]), g=bg)], pg=pg)
         res.append(scn(sh, "free", {}, hold=["b1.s1.a1"], holduntil={"%s.cont.a1" % lvl: rnd.choice([4, 6, 9])}, tag="cont-keeps", contdelay=100))
+    # the plan's continuous checks go on while the SECOND block executes: an action of block 2 is held until the plan's
+    # check has been invoked far more often than block 1 gave it time for
+    for i in range(max(1, n // 2)):
+        sh = shape([blk([1], g=rnd.choice([{}, {"cont": 1}])), blk([1, 1], conc=rnd.choice([1, 2]))], pg={"cont": 1})
+        res.append(scn(sh, "free", {}, hold=["b2.s1.a1"], holduntil={"p.cont.a1": rnd.choice([14, 20])}, tag="cont-keeps-block2", contdelay=100, latmax=100))
     return res
 
 
@@ -606,6 +613,20 @@ def fam_crash_checkflip(rnd, n):
         a = "%s.%s.a1" % (lvl, g)
         sh = shape(blocks, pg=pg)
         res.append(scn(sh, "free", {a: ["perm"]}, out2={a: ["ok"]}, crash="all", crashmax=40, fn=False, tag="crash-checkflip", latmax=100, waitms=5000))
+    return res
+
+
+def fam_crash_retry(rnd, n):
+    """Every crash point of sequences whose actions have a retry budget and use it: transient failures followed by a
+    success or by a permanent failure, a permanent failure at once, the budget used up. What is durable of the
+    attempts at the crash decides what the resuming process may do (C09) and what the action ends as (C10)."""
+    res = []
+    scripts = [(1, ["perm"]), (1, ["tr", "ok"]), (1, ["tr", "perm"]), (2, ["tr", "tr", "ok"]), (2, ["tr", "perm"]), (1, ["tr", "tr"]), (2, ["perm"]), (2, ["tr", "ok"])]
+    for i in range(n):
+        r, sc1 = scripts[i % len(scripts)] if i < len(scripts) else rnd.choice(scripts)
+        sh = shape([blk([2], 1, 0), blk([1])], pg=rnd.choice([{}, {"deferred": 1}]), retries=r)
+        a = "b1.s1.a%d" % rnd.randint(1, 2)
+        res.append(scn(sh, "free", {a: sc1}, crash="all", crashmax=40, fn=False, tag="crash-retry", latmax=100, waitms=5000))
     return res
 
 
